@@ -18,6 +18,7 @@ from common import Corr, Broken, coq_eval_many, parse_evals, VERIF
 ID = "C07"
 TARGETS = ["Props/C07.vo"]
 TRUSTED = [
+    "gate-semantics laws are PROVED (Proofs/RouteReal.v) for the matrices of Gen/Gates.v (translator tools/translate/gates_tr.py, see C09) in every phase ring; qubit labels coded injectively into nat",
     "hand-written model coq/Model/Route.v of chain.py:to_chain_structure and circuit.py:adjacent_gates, tied to the "
     "code by exact comparison of emitted gate lists (name, targets, controls, arg_value) on every run",
     "gate semantics is ABSTRACT in the theorems: a state type S and act : gate -> S -> S with three hypotheses "
@@ -49,6 +50,12 @@ KINDS = ["CNOT", "CSIGN", "SWAP", "ISWAP", "SQRTISWAP", "SQRTSWAP", "BERKELEY", 
 # ------------------------------------------------------------------------------------------------
 # running the real code
 # ------------------------------------------------------------------------------------------------
+def generate(ctx):
+    """Props/C07.v instantiates the routing theorems at the real gate matrices of Gen/Gates.v (regenerated here)."""
+    from translate import gates_tr
+    gates_tr.generate()
+
+
 def _mk_circuit(inp):
     from qutip_qip.circuit import QubitCircuit
     qc = QubitCircuit(inp["N"], num_cbits=1)
